@@ -3,6 +3,7 @@ package checks
 import (
 	"fmt"
 	textwire "github.com/textwire/textwire/v2"
+	"github.com/textwire/textwire/v2/config"
 	"os"
 	"strings"
 	"unicode/utf8"
@@ -294,6 +295,51 @@ func init() {
 						}
 						if rerr != nil || rec.body.String() != want[page] {
 							c.Violation("text-through-files:response", fmt.Sprintf("Response(%s) wrote %q (error %v), want %q", page, rec.body.String(), rerr, want[page]), map[string]any{"text": t, "files": describeFiles(files)})
+						}
+					}
+				}})
+			// text of a custom error page, written by Response for a page that fails
+			secs = append(secs, core.Section{Name: "text-in-custom-error-page", Exhaustive: true, N: len(fileTexts),
+				Run: func(c *core.Ctx, i int) {
+					t := fileTexts[i]
+					out, at := scanText(t)
+					if at >= 0 || strings.HasSuffix(t, "\\") || strings.HasSuffix(t, "{") {
+						return
+					}
+					files := map[string]string{"errors/e.tw": "E<" + t + "> é中😀 <" + t + ">", "bad.tw": "before {{ 1 / zero }} after", "ok.tw": "O<" + t + ">"}
+					if err := writeFilesFresh("c05err", files); err != nil {
+						c.Inconclusive(err.Error())
+						return
+					}
+					for _, f := range []string{"errors/e.tw", "bad.tw", "ok.tw"} {
+						os.Chtimes("c05err/"+f, fixedMtime, fixedMtime)
+					}
+					textwire.VerifResetConfig()
+					var tpl *textwire.Template
+					var err error
+					c.Eval(1)
+					if c.Guard(func() {
+						tpl, err = textwire.NewTemplate(&config.Config{TemplateDir: "c05err", TemplateExt: ".tw", ErrorPagePath: "errors/e"})
+					}) {
+						return
+					}
+					c.Nontrivial("errpage:" + t)
+					if err != nil || tpl == nil {
+						c.Violation("text-in-error-page:load", fmt.Sprintf("loading failed: %v", err), map[string]any{"text": t})
+						return
+					}
+					for page, want := range map[string]string{"bad": "E<" + out + "> é中😀 <" + out + ">", "ok": "O<" + out + ">"} {
+						rec := newRecorder()
+						var rerr error
+						c.Eval(1)
+						if c.Guard(func() { rerr = tpl.Response(rec, page, map[string]any{"zero": 0}) }) {
+							continue
+						}
+						if rec.body.String() != want || (page == "ok") != (rerr == nil) {
+							c.Violation("text-in-error-page:"+page, fmt.Sprintf("Response(%s) wrote %q (error %v), want %q", page, rec.body.String(), rerr, want), map[string]any{"text": t})
+						}
+						if hp := rec.headerProblem(); hp != "" {
+							c.Violation("text-in-error-page:content-length", hp, map[string]any{"text": t, "page": page})
 						}
 					}
 				}})
